@@ -5,6 +5,7 @@ import Klev.Proofs.ScanProofs
 import Klev.Proofs.SegBytesProofs
 import Klev.Proofs.RecoverCheck
 import Klev.Proofs.TornAppend
+import Klev.Proofs.WitnessBytes
 namespace Klev.C07
 
 /-- The record scan shared by Check / Recover / Reindex / Rewrite / Migrate, on a file that
@@ -207,6 +208,62 @@ theorem check_stable_append_bytes (p : Params) (base : Int) (ms ms2 : List Msg) 
   Klev.check_stable_append_bytes p base ms ms2 iv h1 h2 hsize hv1
 
 end Klev.C07
+
+/-! ### Non-vacuity
+
+Every theorem above that has hypotheses, instantiated at concrete bytes: the seven messages
+`Witness.wMs` (the content of the witness log: repeated key, a value-less message, holes in the
+offsets), the batch `Witness.wBs` behind them, the message `Witness.wM`
+(`Klev/Proofs/WitnessBytes.lean`); three zero bytes as junk; index files missing, empty, garbage. -/
+section NonVacuity
+open Klev Klev.Witness
+
+example := Klev.C07.scan_valid_prefix .v2 wMs [0, 0, 0] wMs_enc (Klev.hno_short wMs [0, 0, 0] (by decide))
+example := Klev.C07.scan_valid_prefix .v2 wMs [] wMs_enc (Klev.hno_nil wMs)
+example := Klev.C07.short_tail_is_corruption .v1 wMs [9] wMs_enc (by decide) (by decide)
+example := Klev.C07.recover_noop_on_clean ⟨true, true⟩ ⟨0, render .v2 wMs, none⟩
+  (Klev.check_clean_noidx ⟨true, true⟩ 0 wMs wMs_enc)
+example := Klev.C07.hno_short wMs [1, 2, 3] (by decide)
+example := Klev.C07.hno_truncated_record .v2 (render .v2 wMs) wM wM_enc 38 (by rw [wM_len.1]; decide)
+example := Klev.C07.recover_log ⟨true, false⟩ 0 wMs [0, 0, 0] (some [1, 2, 3]) wMs_enc
+  (Klev.hno_short wMs [0, 0, 0] (by decide))
+example := Klev.C07.recover_eq ⟨false, true⟩ 0 wMs [0, 0, 0] none wMs_enc
+  (Klev.hno_short wMs [0, 0, 0] (by decide))
+example := Klev.C07.recover_truncated ⟨true, true⟩ 0 wMs wM (some []) wMs_enc wM_enc 20
+  (by rw [wM_len.1]; decide)
+example := Klev.C07.recover_truncated ⟨true, true⟩ 0 wMs wM (some []) wMs_enc wM_enc 39
+  (by rw [wM_len.1]; decide)
+example := Klev.C07.check_iff ⟨true, true⟩ 0 wMs [0, 0, 0] none wMs_enc
+  (Klev.hno_short wMs [0, 0, 0] (by decide))
+example := Klev.C07.check_clean_iff ⟨true, true⟩ 0 wMs (some [1, 2, 3]) wMs_enc
+example := Klev.C07.check_clean_noidx ⟨true, true⟩ 0 wMs wMs_enc
+example := Klev.C07.check_clean ⟨true, true⟩ 0 wMs .v1 wMs_enc wMs_size (fun _ => ⟨by decide, wMs_first⟩)
+example := Klev.C07.check_clean ⟨false, false⟩ 0 wMs .v2 wMs_enc wMs_size (fun h => nomatch h)
+example := Klev.C07.check_after_recover ⟨true, true⟩ 0 wMs [0, 0, 0] (some [1, 2, 3]) wMs_enc
+  (Klev.hno_short wMs [0, 0, 0] (by decide)) wMs_size (by decide) wMs_first
+example := Klev.C07.recover_idempotent ⟨true, true⟩ 0 wMs [0, 0, 0] (some [1, 2, 3]) wMs_enc
+  (Klev.hno_short wMs [0, 0, 0] (by decide)) wMs_size (by decide) wMs_first
+example := Klev.C07.recover_idempotent_on_result' ⟨true, true⟩ 0 wMs wM none wMs_enc wM_enc 38
+  (by rw [wM_len.1]; decide) wMs_size (by decide) wMs_first
+example := Klev.C07.truncated_batch_check ⟨true, true⟩ 0 wMs wBs (some []) wMs_enc wBs_enc 50
+  (by rw [wBs_len]; decide) wMsBs_size (by decide) wMsBs_first
+example := Klev.C07.check_stable_append ⟨true, true⟩ 0 wMs wBs .v1 wMs_enc wBs_enc wMsBs_size
+  (fun _ => ⟨by decide, wMsBs_first⟩)
+  (Klev.check_clean ⟨true, true⟩ 0 wMs .v1 wMs_enc wMs_size (fun _ => ⟨by decide, wMs_first⟩))
+example := Klev.C07.check_stable_append_bytes ⟨true, true⟩ 0 wMs wBs .v1 wMs_enc wBs_enc wMsBs_size
+  (fun _ => ⟨by decide, wMsBs_first⟩)
+
+-- evaluated on the bytes (CRC-32C of every record computed by the kernel)
+example : (scan .v2 (render .v2 wMs ++ [0, 0, 0])).recs.map (fun pm => (pm.1, pm.2.off)) =
+      [(8, 0), (46, 1), (84, 2), (122, 4), (159, 5), (197, 6), (235, 8)] ∧
+    (scan .v2 (render .v2 wMs ++ [0, 0, 0])).stop = 273 ∧
+    (scan .v2 (render .v2 wMs ++ [0, 0, 0])).fin = .corrupt .shortHeader := by decide +kernel
+example : Seg.check ⟨true, true⟩ ⟨0, render .v2 wMs, none⟩ = .ok () ∧
+    Seg.check ⟨true, true⟩ ⟨0, render .v2 wMs ++ [0, 0, 0], none⟩ ≠ .ok () := by decide +kernel
+example : (Seg.recover ⟨true, true⟩ ⟨0, render .v2 wMs ++ (enc .v2 wM).take 20, none⟩).map (·.log) =
+    .ok (render .v2 wMs) := by decide +kernel
+
+end NonVacuity
 
 #print axioms Klev.C07.scan_valid_prefix
 #print axioms Klev.C07.short_tail_is_corruption
